@@ -276,7 +276,11 @@ def run(args):
                 if args.transform_left else args.transform_right
         transform = file_interface.load_transform(tf_path)
         if args.invert_transform:
-            transform = lie.se3_inverse(transform)
+            # The loaded transformation can be SE(3) or Sim(3).
+            if lie.is_se3(transform):
+                transform = lie.se3_inverse(transform)
+            else:
+                transform = lie.sim3_inverse(transform)
         logger.debug(SEP)
         logger.debug("Applying a {}-multiplicative transformation:\n{}".format(
             tf_type, transform))
